@@ -23,6 +23,7 @@
   recompute at object level are covered by the script correspondence, not by these theorems.
 -/
 import DnsModel.Lemmas.SetName
+import DnsModel.Tie.Counts
 import DnsModel.Lemmas.HeaderSet
 import DnsModel.Lemmas.DeleteWalk
 namespace Dns.C09
@@ -157,5 +158,16 @@ theorem delete_flagged {pp : PP} {p : Bytes} {v : View} (F : Fresh pp p v) (L : 
       o.qc = (encLabels P'.qls ++ [0]) ++ P'.q4 ∧
       (∀ k, (k + 1 < sectionCountOffset sec ∨ sectionCountOffset sec + 1 < k) → get16 P'.hdr k = get16 (p.take 12) k) :=
   delete_fresh F L o sec hs hl hp hlen c hsec hoff
+
+
+/-! ### Tie to the current source text: the record-count bookkeeping every insertion and deletion goes through
+(`rrcount_inc`, `rrcount_dec`, `insertion_offset` of parsed_packet.rs with the `set_*count` writers of dns_sector.rs,
+re-translated on every run: `Generated/TrCounts.lean`, `Tie/Counts.lean`) -/
+theorem source_counts_tie (pp : PP) (s : Section) :
+    (Tr.Counts.rrcount_inc pp.packet s >>= fun r => Res.ok r.2) = (rrcountInc pp s >>= Tie.incResult) ∧
+    Tr.Counts.rrcount_dec pp.packet s = (rrcountDec pp s >>= fun r => Res.ok (r.2, r.1.packet)) ∧
+    Tr.Counts.insertion_offset pp.packet pp.offsetAnswers pp.offsetNameservers pp.offsetAdditional s
+      = insertionOffset pp s :=
+  ⟨Tie.rrcount_inc_eq pp s, Tie.rrcount_dec_eq pp s, Tie.insertion_offset_eq pp s⟩
 
 end Dns.C09
